@@ -66,6 +66,17 @@ Theorem C43_heartbeat_refreshes : forall E h now g mid,
 Proof. intros E h. intros. eapply c43_heartbeat_refreshes; [apply run_inv|eassumption..]. Qed.
 Print Assumptions C43_heartbeat_refreshes.
 
+(* (5) nothing else removes a member: after any operation other than a cleanup tick or
+       the member's own LeaveGroup a current member is still a member (while the group
+       exists; incl. failover). With (3): a member that keeps heartbeating within its
+       session timeout and rejoins before the rebalance deadlines is never removed. *)
+Theorem C43_only_cleanup_or_leave_removes : forall E h o n0 n1 g g' k,
+  cur (run E h) n0 = Some g -> In k (keys g) ->
+  cur (fst (step E (run E h) o)) n1 = Some g' ->
+  In k (keys g') \/ (exists now, o = Leave k now) \/ (exists now, o = Cleanup now).
+Proof. intros E h. intros. eapply c43_only_cleanup_or_leave_removes; [apply run_inv|eassumption..]. Qed.
+Print Assumptions C43_only_cleanup_or_leave_removes.
+
 (* non-vacuity: thresholds at +-1 ms; a member heartbeating through a long rebalance stays *)
 Example C43_nonvacuous :
   let E := mkEnv [(0, [0])] true in
